@@ -192,9 +192,10 @@ def handle (op : String) (args : List String) : Option String :=
       let schema ← parseSchema sch
       let stmt ← parseStmt st
       let rnd' := (xfStmt (encCell C kv) schema stmt (← ofHex rnd)).2
-      match forwardBind C kv schema stmt (← parseParams ps) ord rnd' with
-      | .same => pure "same"
-      | .changed vs => pure ("changed " ++ showList (vs.map showOpt) ",")
+      let params ← parseParams ps
+      match forwardBind C kv schema stmt params ord rnd' with
+      | .same => pure ("vals " ++ showList (params.map fun p => showOpt p.2) ",")
+      | .changed vs => pure ("vals " ++ showList (vs.map showOpt) ",")
   -- plan schema stmt nvalues → which parameters are transformed
   | "plan", [sch, st, n] => do
       match bindPlan (← parseSchema sch) (← parseStmt st) (← n.toNat?) with
